@@ -137,7 +137,7 @@ KINDS: dict[str, dict] = {
     "i33": {"values": [3], "cls": "", "c": "i", "txt": "int[3..3]", "dist": IntDistribution(3, 3)},
 }
 FULL_ALPHABET = ("i01", "i02", "i04s2", "li14", "cat", "f05", "i33")
-SMALL_ALPHABET = ("i01", "cat", "f05", "i33")
+SMALL_ALPHABET = ("i01", "f05", "i33")
 
 
 def suggest(trial: Any, name: str, kind: str) -> Any:
@@ -316,11 +316,11 @@ class Objective:
         self.n += 1
         self.intended.append("FAIL")  # until the body is through (an escaping exception = FAIL)
         inner = self.body(trial, self)
+        if idx == self.ki_at:
+            raise KeyboardInterrupt()
         if inner is not None:
             self.intended[idx] = "PRUNED" if inner == "prune" else "FAIL"
             raise (optuna.TrialPruned() if inner == "prune" else Planned("inner"))
-        if idx == self.ki_at:
-            raise KeyboardInterrupt()
         if self.failure[0] == "fail" and self.failure[1] == idx:
             raise Planned("leaf")
         if self.failure[0] == "prune" and self.failure[1] == idx:
@@ -460,8 +460,10 @@ def run_bf(case: dict) -> tuple[list, dict, int]:
             name = name_of(kind, len(path), counts, naming)
             v = suggest(trial, name, kind)
             vals = KINDS[kind]["values"]
+            # (BruteForceSampler hands out numpy scalars for floats: compare by value)
             hit = [i for i, w in enumerate(vals) if (w is None and v is None) or
-                   (w is not None and v is not None and type(v) is type(w) and v == w)]
+                   (w is not None and v is not None and isinstance(v, str) == isinstance(w, str)
+                    and not isinstance(v, bool) and v == w)]
             if not hit:
                 raise OutOfDomain(f"{name}={v!r} not in {vals!r}")
             i = hit[0]
@@ -512,7 +514,9 @@ def grid_of(shape: list, theme: int) -> dict:
 
 
 def is_numeric(vals: list) -> bool:
-    return all(isinstance(v, (int, float)) and not isinstance(v, bool) for v in vals)
+    # (nan under suggest_float is rejected by FloatDistribution.to_internal_repr: "`nan` is invalid
+    # value"; nan is a legal categorical choice and GridSampler compares it specially)
+    return all(isinstance(v, (int, float)) and not isinstance(v, bool) and not math.isnan(v) for v in vals)
 
 
 def vkey(v: Any) -> str:
@@ -559,9 +563,7 @@ def run_grid(case: dict) -> tuple[list, dict, int]:
     def prepare(study: Any, when: str) -> None:
         if when == "start":
             for i in range(n_added):
-                # (create_trial validates containment: a lone nan under the float range becomes 0.0)
-                params = {n: (0.0 if isinstance(v, float) and math.isnan(v) else v) for n, v in fixed.items()}
-                study.add_trial(optuna.trial.create_trial(params=params, distributions=dict(dists), value=float(i)))
+                study.add_trial(optuna.trial.create_trial(params=dict(fixed), distributions=dict(dists), value=float(i)))
             if pre == "enq-start":
                 study.enqueue_trial(dict(fixed))
         if when == "last" and pre == "enq-last":
@@ -586,19 +588,21 @@ def run_grid(case: dict) -> tuple[list, dict, int]:
 # ---------------------------------------------------------------------------------------------
 # variant plans
 # ---------------------------------------------------------------------------------------------
-def schedules(total: int, max_cuts: int, positions: list | None = None) -> list[list]:
+def schedules(total: int, max_cuts: int, positions: list | None = None, ki: bool = True) -> list[list]:
     """All runs as 1..max_cuts+1 optimize calls. A cut at position c (1 <= c <= total-1 evaluations
-    done) ends a call before exhaustion, either by n_trials ("n") or by a KeyboardInterrupt in
-    evaluation c-1 ("ki", at most one)."""
+    done) ends a call before exhaustion, either by n_trials ("n") or, with ki, by a
+    KeyboardInterrupt in evaluation c-1 ("ki", at most one per run)."""
     pos = [c for c in (positions if positions is not None else range(1, total)) if 1 <= c <= total - 1]
     pos = sorted(set(pos))
     out: list[list] = [[]]
     if max_cuts >= 1:
         for c in pos:
-            out += [[[c, "n"]], [[c, "ki"]]]
+            out += [[[c, "n"]], [[c, "ki"]]] if ki else [[[c, "n"]]]
     if max_cuts >= 2:
         for a, b in itertools.combinations(pos, 2):
-            out += [[[a, "n"], [b, "n"]], [[a, "ki"], [b, "n"]], [[a, "n"], [b, "ki"]]]
+            out += [[[a, "n"], [b, "n"]]]
+            if ki:
+                out += [[[a, "ki"], [b, "n"]], [[a, "n"], [b, "ki"]]]
     return out
 
 
@@ -610,9 +614,34 @@ def failures_bf(prog: Any, total: int) -> list[list]:
 
 
 def plan_bf(prog: Any, naming: str, level: str) -> list[dict]:
-    """level 'full': the whole cross product; 'thin': the per-axis star around the plain run plus
-    the pairwise combinations failure x schedule for seed 0 (used for the many depth-3 programs of
-    the thorough tier)."""
+    """Variant plans (every listed combination is run; nothing is sampled). "Leaf failure patterns"
+    = none, evaluation i in {0,1,2} fails / is pruned after its suggests; "inner" = deterministic
+    raise (caught exception | TrialPruned) at an inner node, for every inner node. A schedule = cut
+    positions x cut types (n_trials "n" or KeyboardInterrupt "ki"); "edge" = positions
+    {1, total-2, total-1}.
+    'full'  (thorough, depth <= 2), aps=F:
+              seed 0 x leaf failure patterns x every schedule with <= 2 cuts;
+              otherwise (seed 0 x inner, seeds 1,2 x leaf + inner): every 1-cut schedule and the
+              2-cut n-only schedules over edge;
+            aps=T: seed 0 x leaf failure patterns x every n-only schedule with <= 1 cut; seeds 1,2 x
+              leaf failure patterns uncut;
+            stale RUNNING trial at every node x seeds x aps (seed 0 also with evaluation 1 failing).
+    'quick' (quick, depth <= 2), aps=F:
+              seed 0 x leaf failure patterns x every schedule with <= 1 cut;
+              seed 0 x inner x every n-only schedule with <= 1 cut;
+              seed 0 x {none, evaluation 1 fails, evaluation 0 pruned} x 2-cut schedules over edge;
+              seeds 1,2 x (leaf failure patterns uncut, none x every 1-cut n-only schedule);
+            aps=T: seeds x {none, evaluation 1 fails} uncut, seed 0 x none x 1-cut n-only;
+            stale RUNNING trial at every node x (seed 0 x aps F,T | seeds 1,2 x aps=T).
+    'deep'  (thorough, depth 3, names per level), aps=F:
+              seed 0 x none x every schedule with <= 1 cut;
+              seed 0 x other leaf failure patterns x {uncut, n-cut at 1, ki-cut at total-1};
+              seed 0 x inner caught raises uncut; seeds 1,2 x {none, evaluation 1 fails} uncut;
+            aps=T: seed 0 plain; stale RUNNING trial at every node (seed 0; aps=F at inner nodes).
+    'names' (thorough, depth 3, names re-used across depths; the tree shapes are already covered
+            with names per level): seeds {0,1,2} plain; seed 0 x {evaluation 1 fails x cut at 1,
+            evaluation 0 pruned, inner caught raises}; stale RUNNING trial at every inner node
+            (seed 0, aps=T)."""
     L = n_leaves(prog)
     cases: list[dict] = []
 
@@ -620,47 +649,104 @@ def plan_bf(prog: Any, naming: str, level: str) -> list[dict]:
         cases.append({"sampler": "bruteforce", "program": prog, "naming": naming, "seed": seed, "aps": aps,
                       "failure": failure, "cuts": cuts, "pre": pre, "storage": storage})
 
-    inner = [["inner", list(p), k] for p in inner_paths(prog) for k in ("fail", "prune")]
+    def two(scheds: list) -> list:
+        return [c for c in scheds if len(c) == 2]
+
+    leaff = [(f, L) for f in failures_bf(prog, L)]
+    inner = [(["inner", list(p), k], len(leaves_of(prog, naming, p))) for p in inner_paths(prog)
+             for k in ("fail", "prune")]
+    walked = list(walk(prog, naming))
+    nodes = [list(path) for path, _, _ in walked]
+    inner_nodes = [list(path) for path, _, leaf in walked if not leaf]
     if level == "full":
         for seed in (0, 1, 2):
+            for f, tot in leaff + inner:
+                if seed == 0 and f[0] != "inner":
+                    scheds = schedules(tot, 2)
+                else:
+                    scheds = schedules(tot, 1) + two(schedules(tot, 2, [1, tot - 2, tot - 1], ki=False))
+                for cuts in scheds:
+                    add(seed, False, f, cuts)
+            for f, tot in leaff:
+                for cuts in schedules(tot, 1, ki=False) if seed == 0 else [[]]:
+                    add(seed, True, f, cuts)
             for aps in (False, True):
-                for f in failures_bf(prog, L):
-                    for cuts in schedules(L, 2):
-                        add(seed, aps, f, cuts)
-                for f in inner:
-                    tot = len(leaves_of(prog, naming, tuple(f[1])))
-                    for cuts in schedules(tot, 2 if aps is False else 1):
-                        add(seed, aps, f, cuts)
+                for path in nodes:
+                    add(seed, aps, ["none"], [], ["stale", path])
+                    if L >= 2 and seed == 0:
+                        add(seed, aps, ["fail", 1], [], ["stale", path])
+    elif level == "quick":
+        for f, tot in leaff:
+            for cuts in schedules(tot, 1):
+                add(0, False, f, cuts)
+            if f in (["none"], ["fail", 1], ["prune", 0]):
+                for cuts in two(schedules(tot, 2, [1, tot - 2, tot - 1])):
+                    add(0, False, f, cuts)
+        for f, tot in inner:
+            for cuts in schedules(tot, 1, ki=False):
+                add(0, False, f, cuts)
+        for seed in (1, 2):
+            for f, tot in leaff:
+                add(seed, False, f, [])
+            for cuts in schedules(L, 1, ki=False)[1:]:
+                add(seed, False, ["none"], cuts)
         for seed in (0, 1, 2):
-            for aps in (False, True):
-                for path, _, _ in walk(prog, naming):
-                    add(seed, aps, ["none"], [], ["stale", list(path)])
-                    if L >= 2:
-                        add(seed, aps, ["fail", 1], [], ["stale", list(path)])
+            add(seed, True, ["none"], [])
+            if L >= 2:
+                add(seed, True, ["fail", 1], [])
+            for path in nodes:
+                add(seed, True, ["none"], [], ["stale", path])
+        for cuts in schedules(L, 1, ki=False)[1:]:
+            add(0, True, ["none"], cuts)
+        for path in nodes:
+            add(0, False, ["none"], [], ["stale", path])
+    elif level == "deep":
+        for cuts in schedules(L, 1):
+            add(0, False, ["none"], cuts)
+        for f, tot in leaff[1:]:
+            add(0, False, f, [])
+            if L >= 2:
+                add(0, False, f, [[1, "n"]])
+            if L >= 3:
+                add(0, False, f, [[L - 1, "ki"]])
+        for f, tot in inner:
+            if f[2] == "fail":
+                add(0, False, f, [])
+        for seed in (1, 2):
+            add(seed, False, ["none"], [])
+            if L >= 2:
+                add(seed, False, ["fail", 1], [])
+        add(0, True, ["none"], [])
+        for path in nodes:
+            add(0, True, ["none"], [], ["stale", path])
+        for path in inner_nodes:
+            add(0, False, ["none"], [], ["stale", path])
     else:
         for seed in (0, 1, 2):
-            for cuts in schedules(L, 1):
-                add(seed, False, ["none"], cuts)
-        add(0, True, ["none"], [])
-        for f in failures_bf(prog, L)[1:]:
-            for cuts in schedules(L, 1, [1, 2, L - 1]):
-                add(0, False, f, cuts)
-        for f in inner:
-            add(0, False, f, [])
-        for path, _, _ in walk(prog, naming):
-            add(0, True, ["none"], [], ["stale", list(path)])
+            add(seed, False, ["none"], [])
+        if L >= 3:
+            add(0, False, ["fail", 1], [[1, "n"]])
+        add(0, False, ["prune", 0], [])
+        for f, tot in inner:
+            if f[2] == "fail":
+                add(0, False, f, [])
+        for path in inner_nodes:
+            add(0, True, ["none"], [], ["stale", path])
     return cases
 
 
 def plan_bf_journal(prog: Any, naming: str) -> list[dict]:
+    """JournalStorage subset: seed 0 x (leaf failure patterns + inner caught raises) x schedules
+    with <= 2 cuts over the positions {1, 2, total-1} (KeyboardInterrupt only in 1-cut schedules).
+    Every resumed call uses new storage / study / sampler objects."""
     L = n_leaves(prog)
     cases = []
-    for seed in (0, 1):
-        for f in failures_bf(prog, L) + [["inner", list(p), "fail"] for p in inner_paths(prog)]:
-            tot = L if f[0] != "inner" else len(leaves_of(prog, naming, tuple(f[1])))
-            for cuts in schedules(tot, 2, [1, 2, tot - 1]):
-                cases.append({"sampler": "bruteforce", "program": prog, "naming": naming, "seed": seed,
-                              "aps": False, "failure": f, "cuts": cuts, "pre": "none", "storage": "journal"})
+    for f in failures_bf(prog, L) + [["inner", list(p), "fail"] for p in inner_paths(prog)]:
+        tot = L if f[0] != "inner" else len(leaves_of(prog, naming, tuple(f[1])))
+        pos = [1, 2, tot - 1]
+        for cuts in schedules(tot, 1, pos) + [c for c in schedules(tot, 2, pos, ki=False) if len(c) == 2]:
+            cases.append({"sampler": "bruteforce", "program": prog, "naming": naming, "seed": 0,
+                          "aps": False, "failure": f, "cuts": cuts, "pre": "none", "storage": "journal"})
     return cases
 
 
@@ -670,23 +756,57 @@ def grid_positions(total: int) -> list[int]:
     return [1, 2, total // 2, total - 2, total - 1]
 
 
+PRES = ("none", "add1", "add2", "enq-start", "enq-last")
+
+
 def plan_grid(shape: list, theme: int, level: str, storage: str = "mem") -> list[dict]:
+    """Variant plans for one grid. Failure patterns = none, evaluation i in {0,1,2} fails / is
+    pruned, deterministic raise (caught | TrialPruned) before suggesting parameter k (every k).
+    Cut positions: every position for <= 9 evaluations, else {1, 2, total/2, total-2, total-1}.
+    'full'   (thorough, value theme 0): seeds {0,1,2} x 5 kinds of pre-existing trials x all failure
+             patterns x every schedule with <= 1 cut (without pre-existing trials: <= 2 cuts).
+    'thin'   (quick, value theme 0): seeds {0,1} x all failure patterns x every schedule with <= 1
+             cut; with pre-existing trials: leaf failure patterns x <= 1 cut at {1, total-1}.
+    'values' (value themes 1..7, and the JournalStorage subset): seeds {0,1} x {plain, evaluation 1
+             fails + n-cut at 1, evaluation 0 pruned + ki-cut at total-1} x {none, add1,
+             enq-start}, and enq-last after an n-cut at 1."""
     ncell = 1
     for n in shape:
         ncell *= n
     cases: list[dict] = []
+    lone_nan = any(all(isinstance(v, float) and math.isnan(v) for v in vals) for vals in grid_of(shape, theme).values())
 
     def add(seed: int, failure: list, cuts: list, pre: str) -> None:
+        if pre.startswith("enq") and lone_nan:
+            # a fixed nan only matches a categorical choice by object identity, which an enqueued
+            # value does not keep through a storage: not a sampler matter, not exercised
+            return
+        if pre == "enq-last":
+            # the enqueued trial is the first evaluation of the last call: cuts lie before it
+            if not cuts or any(c >= ncell for c, _ in cuts):
+                return
         cases.append({"sampler": "grid", "shape": list(shape), "theme": theme, "seed": seed, "failure": failure,
                       "cuts": cuts, "pre": pre, "storage": storage})
 
+    if level == "values":
+        for seed in (0, 1):
+            for pre in ("none", "add1", "enq-start"):
+                total = ncell + (1 if pre.startswith("enq") else 0)
+                add(seed, ["none"], [], pre)
+                if total >= 2:
+                    add(seed, ["fail", 1], [[1, "n"]], pre)
+                if total >= 3:
+                    add(seed, ["prune", 0], [[total - 1, "ki"]], pre)
+            if ncell >= 2:
+                add(seed, ["none"], [[1, "n"]], "enq-last")
+        return cases
     fs: list[list] = [["none"]]
     for i in range(min(3, ncell)):
         fs += [["fail", i], ["prune", i]]
     fs += [["inner", k, kind] for k in range(len(shape)) for kind in ("fail", "prune")]
     seeds = (0, 1, 2) if level == "full" else (0, 1)
     for seed in seeds:
-        for pre in ("none", "add1", "add2", "enq-start", "enq-last"):
+        for pre in PRES:
             total = ncell + (1 if pre.startswith("enq") else 0)
             for f in fs:
                 if level == "full" and pre == "none":
@@ -698,12 +818,6 @@ def plan_grid(shape: list, theme: int, level: str, storage: str = "mem") -> list
                 if f[0] == "inner" and pre != "none" and level != "full":
                     continue
                 for cuts in scheds:
-                    if pre == "enq-last" and not cuts:
-                        continue  # same as enq-start
-                    if pre == "enq-last":
-                        # the enqueued trial is the first evaluation of the last call: cuts lie before it
-                        if any(c >= ncell for c, _ in cuts):
-                            continue
                     add(seed, f, cuts, pre)
     return cases
 
@@ -717,7 +831,12 @@ def run_case(case: dict) -> tuple[list, dict, int]:
 
 def report(part: Part, case: dict, findings: list, info: dict) -> None:
     for clause, details in findings:
-        key = f"{case['sampler']}|{clause}|{variant_class(case)}"
+        if clause.startswith("optimize-raised"):
+            # a crash is one finding per kind of pre-existing trial, whatever the failure pattern / split
+            pre = case["pre"] if isinstance(case["pre"], str) else case["pre"][0]
+            key = f"{case['sampler']}|{clause}|pre={pre}"
+        else:
+            key = f"{case['sampler']}|{clause}|{variant_class(case)}"
         rep = {"case": case}
         if case["sampler"] == "bruteforce":
             rep["program_readable"] = show(to_tuple(case["program"]), case["naming"])
@@ -736,7 +855,9 @@ def bf_worker(task: tuple) -> dict:
         part.setmax("max_leaves", n_leaves(prog))
         part.setmax("max_depth", depth_of(prog))
         for naming in namings_of(prog):
-            cases = plan_bf(prog, naming, level)
+            cases = plan_bf(prog, naming, level if naming == "level" else "names")
+            if naming == "level":
+                part.add(f"programs_with_plan_{level}")
             if journal:
                 cases += plan_bf_journal(prog, naming)
             if naming == "count":
@@ -752,20 +873,20 @@ def bf_worker(task: tuple) -> dict:
                 report(part, case, findings, info)
         if depth_of(prog) >= 2 and n_leaves(prog) >= 4:
             part.sample({"sampler": "bruteforce", "program": show(prog), "leaves": n_leaves(prog),
-                         "runs": len(plan_bf(prog, "level", level))}, cap=1)
+                         "plan": level, "runs": len(plan_bf(prog, "level", level))}, cap=1)
     return part.out()
 
 
 def grid_worker(task: tuple) -> dict:
     backends.setup_determinism()
-    level, items = task
+    (items,) = task
     part = Part()
-    for shape, theme, journal in items:
+    for shape, theme, level, journal in items:
         part.add("states")
         part.add("grids")
         cases = plan_grid(shape, theme, level)
         if journal:
-            cases += [c for c in plan_grid(shape, theme, "thin", "journal") if c["seed"] == 0]
+            cases += plan_grid(shape, theme, "values", "journal")
         for case in cases:
             findings, info, n = run_case(case)
             part.add("evaluations")
@@ -775,7 +896,7 @@ def grid_worker(task: tuple) -> dict:
             part.add("transitions", n)
             part.add("traces_validated_against_impl", len(info["optimize_calls"]))
             report(part, case, findings, info)
-        if len(shape) == 2 and theme == 1:
+        if len(shape) == 2 and theme in (0, 2):
             part.sample({"sampler": "grid", "grid": {n: [vkey(v) for v in vals] for n, vals in grid_of(shape, theme).items()},
                          "runs": len(cases)}, cap=1)
     return part.out()
@@ -809,37 +930,38 @@ def run(tier: str, replay: str | None = None) -> int:
     if tier == "quick":
         progs = subtrees(2, 9, FULL_ALPHABET)
         items = [(p, i % 16 == 5) for i, p in enumerate(progs)]
-        for b in deal(items, lambda it: n_leaves(it[0]) ** 4 + 50, 150):
-            tasks.append(("bf", "full", b))
-        rule_bf = (f"{len(progs)} programs = all trees of depth <= 2 with <= 9 leaves over 7 domains, full variant "
-                   "cross product (plan_bf 'full')")
+        for b in deal(items, lambda it: n_leaves(it[0]) ** 3 * (2 if it[1] else 1) + 20, 150):
+            tasks.append(("bf", "quick", b))
+        rule_bf = (f"{len(progs)} programs = all trees of depth <= 2 with <= 9 leaves over 7 domains, variant plan "
+                   "'quick' (see plan_bf)")
         grid_level = "thin"
     else:
         progs = subtrees(2, 12, FULL_ALPHABET)
         items = [(p, i % 8 == 5) for i, p in enumerate(progs)]
-        for b in deal(items, lambda it: n_leaves(it[0]) ** 4 + 50, 120):
+        for b in deal(items, lambda it: n_leaves(it[0]) ** 4 + 50, 130):
             tasks.append(("bf", "full", b))
         seen = set(progs)
-        deep = [p for p in subtrees(3, 12, SMALL_ALPHABET) if p not in seen and depth_of(p) == 3]
-        for b in deal([(p, False) for p in deep], lambda it: n_leaves(it[0]) ** 3 + 50, 170):
-            tasks.append(("bf", "thin", b))
-        rule_bf = (f"{len(progs)} programs = all trees of depth <= 2 with <= 12 leaves over 7 domains with the full "
-                   f"variant cross product, plus {len(deep)} programs = all trees of depth exactly 3 with <= 12 leaves "
-                   "over the 4 domains {i01, cat, f05, i33} with the 'thin' plan (per-axis star + failure x schedule "
-                   "for seed 0)")
+        deep = [p for p in subtrees(3, 12, SMALL_ALPHABET) if p not in seen]
+        assert all(depth_of(p) == 3 for p in deep)
+        for b in deal([(p, i % 64 == 5) for i, p in enumerate(deep)], lambda it: n_leaves(it[0]) ** 3 + 50, 130):
+            tasks.append(("bf", "deep", b))
+        rule_bf = (f"{len(progs)} programs = all trees of depth <= 2 with <= 12 leaves over 7 domains with variant plan "
+                   f"'full', plus {len(deep)} programs = all trees of depth exactly 3 with <= 12 leaves over the 3 domains "
+                   "{i01, f05, i33} with variant plan 'deep' (names per level) and 'names' (names re-used across depths)")
         grid_level = "full"
     shapes = [list(s) for k in (1, 2, 3) for s in itertools.product((1, 2, 3), repeat=k)]
-    gitems = [(s, th, (si + th) % 13 == 0) for si, s in enumerate(shapes) for th in range(len(POOL))]
-    gitems.append(([], 0, True))
+    gitems = [(s, th, grid_level if th == 0 else "values", si % 6 == 0)
+              for si, s in enumerate(shapes) for th in range(len(POOL))]
+    gitems.append(([], 0, grid_level, True))
 
     def gcost(it: tuple) -> float:
         n = 1
         for x in it[0]:
             n *= x
-        return n * n + 5
+        return (n * n + 5) * (1 if it[2] == "values" else 25 if it[2] == "thin" else 120)
 
-    for b in deal(gitems, gcost, 60 if tier == "quick" else 120):
-        tasks.append(("grid", grid_level, b))
+    for b in deal(gitems, gcost, 48 if tier == "quick" else 100):
+        tasks.append(("grid", b))
     pmap(ctx, worker, tasks)
     ctx.cov["tasks"] = len(tasks)
     ctx.assumptions += [
@@ -855,8 +977,9 @@ def run(tier: str, replay: str | None = None) -> int:
     return ctx.finish(
         exhaustive=True,
         rule=f"BruteForceSampler: {rule_bf}; names per level and, where different, per class count. GridSampler: "
-             f"{len(gitems)} grids = 39 shapes (<= 3 parameters x <= 3 values) x 8 value themes + the empty grid, plan "
-             f"'{grid_level}' (seeds x failure patterns x schedules x 5 kinds of pre-existing trials). Oracle: multiset of "
+             f"{len(gitems)} grids = 39 shapes (<= 3 parameters x <= 3 values) x 8 value themes + the empty grid; value "
+             f"theme 0 with plan '{grid_level}' (seeds x failure patterns x schedules x 5 kinds of pre-existing trials), "
+             "themes 1-7 with plan 'values' (see plan_grid). Oracle: multiset of "
              "evaluated combinations == reachable leaves / cells, each once; every cut call runs exactly its n_trials; the "
              "last call returns by itself with fewer than leaves+3 trials.",
     )
